@@ -151,6 +151,8 @@ impl State {
         if let Some(vector) = &self.transitions[event.to_usize()] {
             let mut sum = 0.0;
             let r = rng.gen_range(0.0..1.0);
+            #[cfg(feature = "verif")]
+            crate::verif::tape(crate::verif::TAPE_U, f32::to_bits(r) as u64);
             for t in vector.iter() {
                 sum += t.1;
                 if r < sum {
